@@ -40,6 +40,22 @@ def run(ctx):
         regs.append(f)
         cmds, meta = [], []
         dcmds, dmeta = [], []
+        # the extracted model of Display (Text/MarkerDisplay.v) with the key spellings and pep440's Version text as oracle tables
+        drv = fw.Proc(build.DRIVER)
+        for idx, name in keys.ver.items():
+            drv.ask(['tab', 'keytext', 'ver', idx, S(name)])
+        for idx, name in keys.str.items():
+            drv.ask(['tab', 'keytext', 'str', idx, S(name)])
+
+        def model_text(m):
+            for _ in range(200):
+                o = drv.ask(['showmarker', pv, m])
+                if o[0] == 'oracle-miss' and o[1][0] == 'vshow':
+                    t = sess.ask(['vshow', o[1][1]])
+                    drv.ask(['tab', 'vshow', o[1][1], t[1]])
+                    continue
+                return o
+            return ['oracle-loop']
         for r in regs:
             try:
                 m = sess.model(r)
@@ -63,6 +79,10 @@ def run(ctx):
                 continue
             text = unS(d[1])
             how['text'] = text
+            mt = model_text(m)
+            ctx.corr_cases += 1
+            if mt[0] != 'ok' or unS(mt[1]) != text:
+                ctx.disagreement('show_marker ~ Display for MarkerTreeContents', how, unS(mt[1]) if mt[0] == 'ok' else dump(mt)[:200], text)
             if d[2] != 'T':
                 ctx.failure('Display, try_to_string, contents() and serde text differ', how)
             r2, out = sess.parse(text)
@@ -133,6 +153,7 @@ def run(ctx):
             if got != want:
                 ctx.failure('the clauses of to_dnf() do not denote the marker (recompiled diagram differs)', dict(how, recompiled=pretty(got)[:600], marker_diagram=pretty(want)[:600]))
         c02.monitor(ctx, sess, regs)
+        drv.close()
         sess.close()
     if not ctx.samples:
         ctx.sample('(none)')
